@@ -11,7 +11,7 @@ def rand_attrs(rng, maxn=6, big=False):
     return attrs
 
 def secret_of(rng):
-    return rbytes(rng, rng.choice([1, 2, 8, 15, 16, 17, 63, 64, 65, 255]))
+    return rbytes(rng, rng.choice([1, 2, 8, 15, 16, 17, 63, 64, 65, 255, 256, 257, 300, 511, 600]))   # a configuration line holds up to 2047 characters
 
 def mutate(rng, pkt):
     b = bytearray(pkt)
